@@ -34,8 +34,15 @@ def never_called(x):
 
 
 @profile
+def slow():
+    import time
+    time.sleep(0.12)            # one hit lasting more than 1e6 output units for the small units: the wide scientific cells
+    return 1
+
+
+@profile
 def caller(n):
-    return hot(n) + hot(n // 2)
+    return hot(n) + hot(n // 2) + slow()
 
 
 print(caller(%d))
@@ -75,6 +82,7 @@ def run_case(c, d):
     vargs = (['-u', c['unit']] if c['unit'] else []) + (['-z'] if c['z'] else [])
     p = subprocess.run([sys.executable, '-m', 'line_profiler'] + vargs + [lprof], capture_output=True, text=True, env=env, cwd=d)
     out['viewer_cli'] = p.stdout
+    out['prog_text'] = PROG % c['n']
     out['viewer_cli_err'] = p.stderr[-300:]
     # ---- a live profiler: print_stats vs dump/load vs show_text on the loaded data
     prof = line_profiler.LineProfiler()
